@@ -368,6 +368,19 @@ def stkLoop (hook : EqHook) : List Val → List Val → EqRes
   | _ :: _, [] => .error .panic   -- o.index(i) past o's end: excluded by the length test (C05_total: never taken)
 end
 
+/-- `stack.isEqual(o)`: pointer short-cut, capacity / length, kind, then slot by slot -/
+def Stk.isEqual (hook : EqHook) (same : Bool) (r o : Stk) : EqRes :=
+  if same then .ok none
+  else match stackHead r.cfg r.xs.length o.cfg o.xs.length with
+    | some e => .ok (some e)
+    | none => stkLoop hook r.xs o.xs
+
+/-- `condition.isEqual(o)`: keyword, operator (nil-safe, F9c), expression -/
+def condIsEqual (hook : EqHook) (kw : Text) (op : Op) (ex : Val) (kw' : Text) (op' : Op) (ex' : Val) : EqRes :=
+  match condHead kw op kw' op' with
+  | some e => .ok (some e)
+  | none => Val.veq hook ex ex'
+
 /-- a Stack or Condition handle (possibly zero-valued): something that has an `IsEqual` method -/
 def Val.isHandle : Val → Bool
   | .stk .. | .zstk _ | .cnd .. | .zcnd _ => true
@@ -401,5 +414,16 @@ def Val.IsEqual (hook : EqHook) (same : Bool) : Val → Val → EqRes
         | _ => .ok (some .badInput)
   | .zcnd _, _ => .ok (some .notInit)
   | _, _ => .error .panic         -- not a handle: there is no such method (theorems assume `isHandle`)
+
+/-- in default mode `Stack.IsEqual` is `stack.isEqual` on the converted argument -/
+theorem Val.IsEqual_stk (hook : EqHook) (same : Bool) (f f' : Form) (c c' : Cfg) (xs ys : List Val) (h : c.eqf = none) :
+    Val.IsEqual hook same (.stk f c xs) (.stk f' c' ys) = Stk.isEqual hook same ⟨c, xs⟩ ⟨c', ys⟩ := by
+  simp only [Val.IsEqual, h, Stk.isEqual]
+
+/-- in default mode `Condition.IsEqual` is `condition.isEqual` on the converted argument -/
+theorem Val.IsEqual_cnd (hook : EqHook) (same : Bool) (f f' : Form) (c c' : Cfg) (kw kw' : Text) (op op' : Op) (ex ex' : Val)
+    (hk : c.kind = Gen.kind_cond) (h : c.eqf = none) :
+    Val.IsEqual hook same (.cnd f c kw op ex) (.cnd f' c' kw' op' ex') = condIsEqual hook kw op ex kw' op' ex' := by
+  simp only [Val.IsEqual, hk, h, condIsEqual, bne_self_eq_false, Bool.false_eq_true, ↓reduceIte]
 
 end Stackage
